@@ -1,6 +1,7 @@
 import HC.Proofs.Bitfield
 import HC.Props.C02
 import HC.Proofs.Replica
+import HC.Proofs.ReplicaReopen
 /-!
 # C08 — has() and contiguous_length are exact
 
@@ -147,5 +148,48 @@ theorem replica_exact (C : Crypto) (hC : TreeStore.HashWF C) (bs : Array Bytes) 
     rw [e] at h2 ⊢
     rw [this] at h2
     simpa using h2.symm
+
+/-- **replicas across growth rounds, hash requests and restarts**: from creation with the writer's public key, first
+    contact, then upgrades, block and hash exchanges and close/reopen in any order — `has` is exactly the set of
+    fetched indices (the bitfield survives every restart) and the contiguous hint is the first index not fetched -/
+theorem replica_reopen_exact (C : Crypto) (hC : TreeStore.HashWF C) (hT : TreeStore.TreeWF C) (bs : Array Bytes)
+    (hs : bs.size < 2 ^ 62 ∧ Offsets.psum bs bs.size < 2 ^ 64) (pk : Bytes) (hpk : pk.length = 32)
+    (n₁ : Nat) (h0 : 0 < n₁) (hn : n₁ ≤ bs.size) (sig : Bytes) (hsl : sig.length = 64)
+    (hver : C.verify pk (Growth.signableAt C bs n₁ 0) sig = true)
+    (acts : List ReplicaReopen.ActR) (hok : HashReq.OkActs C bs pk 0 n₁ (ReplicaReopen.exchanges acts)) :
+    ∃ c j, Core.openCore C (some (pk, none)) {} = .ok (c, j) ∧
+      let d := ({} : Disk).applyAll j
+      let st1 := c.verifyAndApply C d (Growth.honestFirst C bs 0 n₁ sig)
+      let s2 := ReplicaReopen.playR C bs (st1.core, d.applyAll st1.journal) acts
+      (∀ i, s2.1.has i = HashReq.fetched (ReplicaReopen.exchanges acts) i)
+        ∧ (∀ i, i < s2.1.info.contiguous → HashReq.fetched (ReplicaReopen.exchanges acts) i = true)
+        ∧ HashReq.fetched (ReplicaReopen.exchanges acts) s2.1.info.contiguous = false := by
+  obtain ⟨c, j, e1, e2, e3, e4, e5⟩ := ReplicaReopen.init_replica C pk hpk
+  refine ⟨c, j, e1, ?_⟩
+  intro d st1 s2
+  have hsz := Growth.size_extract bs n₁ hn
+  have hfresh := e4 (bs.extract 0 n₁) ⟨by rw [hsz]; omega, by
+    rw [hsz, Growth.psum_extract bs n₁ hn n₁ (Nat.le_refl _)]
+    have := Offsets.psum_mono bs hn; omega⟩
+  have hver' : C.verify c.publicKey (Growth.signableAt C bs n₁ c.tree.fork) sig = true := by rw [e2, e3]; exact hver
+  obtain ⟨_, r2, r3, r4⟩ := ReplicaReopen.rp_first C hC hT bs hs n₁ h0 hn c d hfresh ⟨_, _, e5⟩ sig hsl hver'
+  rw [e3] at r2 r3 r4
+  obtain ⟨q1, _⟩ := ReplicaReopen.playR_rp C hC hT bs pk 0 acts n₁ _ _ _ r2 h0 (by rw [r3, e2]) r4 hok
+  have hb : ∀ i, s2.1.has i = HashReq.fetched (ReplicaReopen.exchanges acts) i := fun i => by
+    have := q1.rep.bits i
+    simpa [Core.has] using this
+  refine ⟨hb, fun i hi => ?_, ?_⟩
+  · have := q1.rep.contig.1 i hi
+    have h2 := hb i
+    simp only [Core.has] at h2
+    rw [this] at h2
+    exact h2.symm
+  · have := q1.rep.contig.2
+    have h2 := hb s2.1.info.contiguous
+    simp only [Core.has] at h2
+    have e : s2.1.info.contiguous = s2.1.header.contiguous := rfl
+    rw [e] at h2 ⊢
+    rw [this] at h2
+    exact h2.symm
 
 end HC.C08
